@@ -234,6 +234,11 @@ def compare_session(line, h_ans, m_ans, debug_build=False, ignore_ops=()):
     findings = []
     n = 0
     classes = set()
+    if H in (['HANG'], ['ABORT']) and 'D' in M3 and not debug_build:
+        # the whole request was lost (no per-operation answers) and the model of the code says the
+        # scenario reaches a point whose optimised-build behaviour is unspecified (e.g. a read of an
+        # astronomically long field decoded from arbitrary bits): nothing to compare
+        return findings, 0, classes
     L = max(len(H), len(M3), len(M1))
     live3 = True   # still comparing against the L3 model
     live1 = True   # still comparing against the reference
